@@ -158,7 +158,7 @@ Print Assumptions PIPELINE_parens_redundant_end_to_end.
 (* the parser only builds string nodes whose parts are computed from their own raw text *)
 Theorem PIPELINE_parser_builds_canonical_strings : forall v f m st e st',
   parse_expression f v m st = Done (e, st') -> canon e.
-Proof. intros v f. exact (proj1 (expr_canon v f)). Qed.
+Proof. exact parser_builds_canonical_strings. Qed.
 Print Assumptions PIPELINE_parser_builds_canonical_strings.
 
 (* ================================================================== (d) the resolved ids are lexical;
@@ -326,6 +326,28 @@ Example PIPELINE_example_parens :
   run_source eps0 50 ex_src_parens1 = run_source eps0 50 ex_src_parens2 /\
   run_source eps0 50 ex_src_parens1 = Ran [] Spec.SDone.
 Proof. vm_compute. repeat split. Qed.
+
+(* C10's worked token list under its two layouts (Layout.ex_tokens / ex_layout_line / ex_layout_tall):
+   the hypotheses of (b) hold, and the conclusion recomputed: prints "a<LF>1" under both *)
+Example PIPELINE_example_layouts :
+  forallb tk_ok ex_tokens = true /\
+  wf_layout ex_tokens ex_layout_line && separating ex_tokens ex_layout_line = true /\
+  wf_layout ex_tokens ex_layout_tall && separating ex_tokens ex_layout_tall = true /\
+  run_source eps0 100 (render ex_tokens ex_layout_line) = Ran [Lang.VStr [97; 10; 49]%Z] Spec.SDone /\
+  run_source eps0 100 (render ex_tokens ex_layout_tall) = Ran [Lang.VStr [97; 10; 49]%Z] Spec.SDone /\
+  run_source_impl eps0 100 (render ex_tokens ex_layout_tall) = Ran [Lang.VStr [97; 10; 49]%Z] Lang.Done.
+Proof. vm_compute. repeat split. Qed.
+
+(* where (d) and (e) end: shout(f()) / make x get 1 / do f() start return x end  — accepted, the
+   reference is stuck (not comparable), the id-directed twin panics at a SCOPING site (the open
+   early-capture finding of C04 / C06), which is none of the ten sites of (e) *)
+Definition ex_src_early : bytes :=
+  [115;104;111;117;116;40;102;40;41;41;10;109;97;107;101;32;120;32;103;101;116;32;49;10;
+   100;111;32;102;40;41;32;115;116;97;114;116;32;114;101;116;117;114;110;32;120;32;101;110;100;10]%Z.
+Example PIPELINE_example_early_capture :
+  run_source eps0 100 ex_src_early = Ran [] Spec.SIsStuck /\
+  run_source_impl eps0 100 ex_src_early = Ran [] (Lang.Panicked Lang.PVarMissing).
+Proof. vm_compute. split; reflexivity. Qed.
 
 (* the three rejecting phases, and the lazy lexer: the unterminated string behind the point where
    the parser gave up is never reported *)
